@@ -198,7 +198,15 @@ pub fn object_heavy(base: &Config, salt: u64) -> Config {
     let mut rng = Rng::new(salt);
     let steps = 10 + rng.below(50) as usize;
     // recipes: operand set-ups followed by the typed opcode that consumes them
-    const RECIPES: [&[&str]; 22] = [
+    const RECIPES: [&[&str]; 29] = [
+        // aliases made by DUP and stored back into the object itself, directly or through tuples
+        &["GLOBAL", "EMPTY_TUPLE", "REDUCE", "DUP", "TUPLE1", "BUILD"],
+        &["GLOBAL", "EMPTY_TUPLE", "REDUCE", "DUP", "NONE", "TUPLE2", "BUILD"],
+        &["EMPTY_LIST", "DUP", "TUPLE1", "APPEND"],
+        &["EMPTY_LIST", "DUP", "NONE", "APPEND", "APPEND"],
+        &["EMPTY_DICT", "DUP", "TUPLE1", "NONE", "SETITEM"],
+        &["MARK", "NONE", "INST", "DUP", "TUPLE1", "TUPLE1", "BUILD"],
+        &["EMPTY_LIST", "MEMOIZE", "DUP", "TUPLE1", "APPEND", "BINGET"],
         &["GLOBAL", "EMPTY_TUPLE", "EMPTY_DICT", "NEWOBJ_EX"],
         &["GLOBAL", "NONE", "TUPLE1", "EMPTY_DICT", "NEWOBJ_EX"],
         &["GLOBAL", "EMPTY_TUPLE", "NEWOBJ"],
